@@ -11,7 +11,7 @@ import os
 
 import lbry.wallet  # noqa: F401  (import order, see DESIGN 2.3)
 from lbry.dht import constants
-from lbry.dht.error import RemoteException
+from lbry.dht.error import RemoteException, TransportNotConnected
 from lbry.dht.peer import PeerManager, make_kademlia_peer
 from lbry.dht.protocol.protocol import KademliaProtocol
 from lbry.dht.serialization.datagram import (decode_datagram, RequestDatagram, ResponseDatagram, ErrorDatagram,
@@ -142,7 +142,9 @@ class Impl:
             self.impl = impl
 
         def is_closing(self):
-            return False
+            # 'closed': the local UDP transport is closing at the moment of this add (listening port shut while the
+            # routing table is still being maintained): _send raises TransportNotConnected, nothing is sent
+            return bool(self.impl.net.get('closed'))
 
         def close(self):
             pass
@@ -173,7 +175,16 @@ class Impl:
         if self.protocol.transport is None:
             self.protocol.connection_made(self._Transport(self))
         self.net = {k: set(cls.get(k, ())) for k in ('timeout', 'error', 'sendfail')}
-        self.sent = []
+        self.net['closed'] = bool(cls.get('closed'))
+        self.sent, self.attempted = [], []
+        if not getattr(self, '_send_request_noted', False):
+            self._send_request_noted = True
+            real_send_request = self.protocol.send_request
+
+            async def send_request(peer, request):          # only notes whom a request was meant for, then delegates
+                self.attempted.append(self.triple(peer))
+                return await real_send_request(peer, request)
+            self.protocol.send_request = send_request
 
     def _spin(self, n=12):
         for _ in range(n):
@@ -324,11 +335,12 @@ class Impl:
                 return 'Stuck', self.sent, self.now - start
         try:
             ret = repr(task.result())
-        except OSError:
-            ret = 'OSError'
+        except (OSError, TransportNotConnected):
+            ret = 'OSError'      # canonical label of "the probe's own exception left add_peer" (the model's ErrProbe)
         except Exception as e:  # noqa
             ret = type(e).__name__
-        return ret, self.sent, self.now - start
+        probed = self.sent or (self.attempted if self.net['closed'] else [])
+        return ret, probed, self.now - start
 
     def remove(self, peer):
         try:
@@ -415,7 +427,7 @@ def monitor_add(own, before, after, new, dead, ret, sendfail=(), probed=()):
     for q in before:
         if q[0] != new[0] and (q[1], q[2]) != (new[1], new[2]) and key_str(q[1], q[2]) not in dead:
             if tuple(q) not in aft:
-                why = ('still answers pings (it was never asked: the local send of the probe failed)'
+                why = ('still answers pings (it was never asked: the probe could not be sent - local send failure or transport closing)'
                        if key_str(q[1], q[2]) in sendfail else 'answers the probe')
                 return f'contact {hx(q[0])} {why} but was displaced by a newcomer at a different address'
     dn = new[0] ^ own
@@ -601,8 +613,17 @@ def execute(model, case, rp=True):
                 facts = impl.facts()
                 iret, iprobed, dt = impl.add_real(impl.mk(idv, addr, port), cls)
                 deadk = sorted(set(cls.get('timeout', [])) | set(cls.get('error', [])))
-                m = model.call('sadd_real', dead=deadk, sendfail=cls.get('sendfail', []), wait=dt,
-                               **peer_fields(idv, addr, port))
+                if cls.get('closed'):
+                    # transport closing: whoever is probed cannot be asked, the exception leaves add_peer at once, no ping
+                    # effects, no time passes -- the table-level operation with a local failure for every contact
+                    cls = dict(cls, sendfail=[key_str(q[1], q[2]) for q in before])
+                    deadk = []
+                    m = model.call('sadd', dead=[], sendfail=cls['sendfail'], **peer_fields(idv, addr, port))
+                    if dt:
+                        m['ret'] = f'(no time may pass, {dt} s did)'
+                else:
+                    m = model.call('sadd_real', dead=deadk, sendfail=cls.get('sendfail', []), wait=dt,
+                                   **peer_fields(idv, addr, port))
                 iobs = {'ret': iret, 'probed': iprobed, 'table': impl.table(),
                         'facts': {k: sorted(v) for k, v in facts.items()}}
                 m['facts'] = {k: sorted(v) for k, v in m['facts'].items()}
@@ -612,6 +633,7 @@ def execute(model, case, rp=True):
                                 set(cls.get('sendfail', [])), iprobed)
                 pk = key_str(iprobed[0][1], iprobed[0][2]) if iprobed else None
                 out.count('real-probe:' + iret + (':no-probe' if not iprobed else
+                                                  ':transport-closing' if cls.get('closed') else
                                                   ':local-send-failure' if pk in cls.get('sendfail', []) else
                                                   ':timeout' if pk in cls.get('timeout', []) else
                                                   ':error-answer' if pk in cls.get('error', []) else ':answered'))
@@ -782,6 +804,8 @@ def execute_bootstrap(case):
                 idv, addr, port, cls = int(o[1], 16), o[2], o[3], o[4]
                 deadk = set(cls.get('timeout', [])) | set(cls.get('error', []))
                 iret, pr, _ = impl.add_real(impl.mk(idv, addr, port), cls)
+                if cls.get('closed'):
+                    cls, deadk = dict(cls, sendfail=[key_str(q[1], q[2]) for q in before]), set()
                 bad = monitor_table(own, impl.table(), True) or \
                     monitor_add(own, before, impl.contacts(), [idv, addr, port], deadk, iret, set(cls.get('sendfail', [])), pr)
             elif kind == 'remove':
@@ -1002,6 +1026,7 @@ class Gen:
             ops.append(['t', rng.choice([30, 60, 61, 700])])
         new = (half + (1 << 21) + rng.randrange(1 << 20)) ^ own                  # farther than every incumbent
         ops.append(['radd', hx(new), base + 500, 4444, {'sendfail': list(keys)}])    # never asked -> must stay
+        ops.append(['radd', hx(new), base + 500, 4444, {'closed': 1}])               # transport closing: never asked either
         ops.append(['find', hx(own), K, None])
         ops.append(['radd', hx(new), base + 500, 4444, {}])                          # asked, answers -> rejected
         ops.append(['radd', hx(new), base + 500, 4444,
@@ -1222,6 +1247,8 @@ class Gen:
                                 cls['sendfail'].append(key_str(q[1], q[2]))
                             elif r < self.p_sf + p_dead:
                                 cls[rng.choice(['timeout', 'error'])].append(key_str(q[1], q[2]))
+                        if rng.random() < 0.06:
+                            cls = {'closed': 1}
                         o = ['radd', hx(idv), addr, port, cls]
                 elif c < 0.85 - self.w_remove:
                     o = rng.choice([['add_noid', BASE_IP + rng.randrange(n_addr), rng.choice(ports)],
@@ -1388,7 +1415,8 @@ def main(run):
                 'contact (timeout or RemoteException), find_close_peers with keys near contacts/own id/bucket edges and '
                 'counts None,0,1..1000,negative; in 30% of the histories the probe is the REAL ping of KademliaProtocol._add_peer '
                 '(get_rpc_peer().ping -> send_request -> _send) over a simulated socket whose per-contact behaviour is chosen: '
-                'answers / datagram lost (timeout on the virtual clock) / error answer / local sendto() raises OSError; '
+                'answers / datagram lost (timeout on the virtual clock) / error answer / local sendto() raises OSError / the '
+                'transport is closing at that moment (TransportNotConnected); '
                 'other rpcs to contacts (ping) and endpoint moves of a known id; the real KademliaProtocol.routing_table_task fed '
                 'through KademliaProtocol.add_peer, also while one of its probes is in flight; get_peer, the same queries through KademliaRPC.find_node / find_value of a real '
                 'KademliaProtocol owning the table (requester inside/outside the table, key = requester id, K-1..K+2 contacts); plus the macro "far newcomer turned away by a full bucket, then one of '
